@@ -303,6 +303,23 @@ func runC09(tier string, seed uint64) {
 			}
 			// regression corpus: the requests that used to panic or answer malformed errors
 			var corpus []Req
+			// a pending upload whose bucket is deleted (it holds no object) before the upload is completed,
+			// listed, continued and aborted; bystanders on the other bucket and the bucket's re-creation follow
+			if !isSingle(kind) && cfg.host == "" {
+				if id := s.Initiate("bkq", "orphan", nil); id != "" {
+					et := s.UploadPart("bkq", "orphan", id, 1, []byte("orphaned part"))
+					done := "<CompleteMultipartUpload><Part><PartNumber>1</PartNumber><ETag>" + xmlEsc(et) + "</ETag></Part></CompleteMultipartUpload>"
+					corpus = append(corpus, Req{Method: "DELETE", Path: "/bkq"},
+						Req{Method: "GET", Path: "/bkq/orphan?uploadId=" + id},
+						Req{Method: "PUT", Path: "/bkq/orphan?uploadId=" + id + "&partNumber=2", Body: []byte("more")},
+						Req{Method: "POST", Path: "/bkq/orphan?uploadId=" + id, Body: []byte(done)},
+						Req{Method: "GET", Path: "/" + singleBucketName + "/k"},
+						Req{Method: "DELETE", Path: "/bkq/orphan?uploadId=" + id},
+						Req{Method: "GET", Path: "/"},
+						Req{Method: "PUT", Path: "/bkq"},
+						Req{Method: "GET", Path: "/bkq"})
+				}
+			}
 			for _, src := range []string{"nobucket", "", "/", "a", "//", "/bkt", "bkt/k", "/bkt/k?versionId=x", "/bkt/%zz", "/nosuch/k"} {
 				corpus = append(corpus, Req{Method: "PUT", Path: "/" + singleBucketName + "/copied", Body: []byte{}, Header: [][2]string{{"X-Amz-Copy-Source", src}}})
 			}
